@@ -112,8 +112,13 @@ def val_idx(c, v, r):
 
 def pb_text(c, v, r):
     i = val_idx(c, v, r)
-    if c["div"] and v == c["nlev"] and i == 2:
+    div = c["div"]
+    if div is True:
+        div = "second"
+    if div == "second" and v == c["nlev"] and i == 2:
         return "-----"
+    if div == "first" and v == c["nlev"] and c["nlev"] >= 2 and val_idx(c, v - 1, r) >= 2:
+        return "-----" if i == 1 else "~P%d.%d~" % (v, i - 1)
     return "~P%d.%d~" % (v, i)
 
 
